@@ -76,6 +76,7 @@ class SchemaDeriver:
             raise Unsupported(f"non-literal {u(e)}") from ex
 
     canon = None        # hv.canon.Canon, set by the checker: class-body expressions are read in canonical form
+    prior: dict = {}    # class -> extra mode left behind by earlier _pydantic_rebuild calls of the generating script
 
     def expand(self, mod: Module, e: ast.expr | None):
         """`v: T = _tag_field("X")` / `model_config = _union_config("v")`: a call of a module-level helper function in a class body
@@ -369,6 +370,9 @@ class SchemaDeriver:
         out: dict = {}
         if c in configured and extra_mode is not None:
             out["additionalProperties"] = extra_mode == "allow"
+        elif c not in configured and self.prior.get(c) is not None:
+            # left configured by an earlier rebuild of the same process (model_config is updated in place)
+            out["additionalProperties"] = self.prior[c] == "allow"
         if doc:
             out["description"] = doc
         out["properties"] = props
